@@ -52,7 +52,7 @@ SKIP = {'body_jntadr', 'body_dofadr', 'body_geomadr', 'body_treeid', 'body_bvhad
         'jnt_dofadr', 'geom_dataid', 'geom_matid', 'geom_plugin', 'site_matid', 'tendon_adr', 'tendon_matid',
         'tendon_treeid', 'actuator_ctrladr', 'actuator_outadr', 'actuator_actadr', 'actuator_historyadr',
         'actuator_plugin', 'actuator_trnid', 'sensor_adr', 'sensor_historyadr', 'sensor_plugin', 'sensor_objid',
-        'sensor_refid', 'body_ipos', 'body_iquat', 'body_inertia', 'geom_size', 'site_size', 'geom_user', 'site_user',
+        'sensor_refid', 'body_ipos', 'body_iquat', 'body_inertia', 'body_sameframe', 'geom_size', 'site_size', 'geom_user', 'site_user',
         'body_user', 'jnt_user', 'cam_user', 'tendon_user', 'actuator_user', 'sensor_user'}
 QUATS = {'body_quat', 'geom_quat', 'site_quat', 'cam_quat'}
 DERIVED = {'body_invweight0', 'body_subtreemass', 'tendon_invweight0', 'tendon_length0', 'tendon_lengthspring',
@@ -249,6 +249,8 @@ def compare_models(lib, mA, mB, kinds, what):
     if getattr(mA, s) != getattr(mB, s):
       fail('%s: size %s %d vs %d' % (what, s, getattr(mA, s), getattr(mB, s)), 'size:' + s)
   skip = set(SKIP)
+  if any(mA.body_mass[i] == 0 and not np.any(mA.body_inertia[i]) for i in range(1, mA.nbody)):
+    skip.add('dof_length')      # built from xipos of the joint's body and its parent: arbitrary for massless bodies
   if fuse:
     skip |= FUSE_SKIP
   if disc:
@@ -335,9 +337,18 @@ def compare_models(lib, mA, mB, kinds, what):
     if oa != ob:
       fail('%s: object of sensor %r: %s vs %s' % (what, x, oa, ob), 'field:sensor_objid')
   # mass properties as physical quantities (principal frame is not unique)
+  # Bodies without mass: the inertial frame has no physical meaning and is NOT compared (observed: for a massless body
+  # inside a <frame> body_ipos/iquat hold the body's local pos/quat, otherwise 0/identity).
+  massless = False
   if not fuse:
     for x in common['body']:
       a, b = IA.ids['body'][x], IB.ids['body'][x]
+      if mA.body_mass[a] == 0 and mB.body_mass[b] == 0 and not np.any(mA.body_inertia[a]) and not np.any(mB.body_inertia[b]):
+        massless = massless or a > 0
+        continue
+      if not disc and mA.body_sameframe[a] != mB.body_sameframe[b]:
+        fail('%s: body_sameframe of body %r: %d vs %d' % (what, x, mA.body_sameframe[a], mB.body_sameframe[b]),
+             'field:body_sameframe')
       e = relerr(mA.body_ipos[a], mB.body_ipos[b])
       STATS.note('direct', 'body_ipos', e)
       Ta, Tb = inertia_body(mA, a), inertia_body(mB, b)
@@ -352,7 +363,8 @@ def compare_models(lib, mA, mB, kinds, what):
     va, vb = np.atleast_1d(modelcmp._member(mA, k)), np.atleast_1d(modelcmp._member(mB, k))
     if not np.array_equal(va, vb):
       fail('%s: %s %s vs %s' % (what, k, va.tolist(), vb.tolist()), 'field:opt')
-  stat = ['meaninertia'] + ([] if fuse or disc else ['meanmass', 'meansize', 'extent', 'center'])
+  # meansize / extent / center are built from xipos, which is arbitrary for massless bodies (see above)
+  stat = ['meaninertia'] + ([] if fuse or disc else ['meanmass'] + ([] if massless else ['meansize', 'extent', 'center']))
   for k in stat:
     va, vb = np.atleast_1d(getattr(mA.stat, k)), np.atleast_1d(getattr(mB.stat, k))
     e = relerr(va, vb)
